@@ -31,10 +31,13 @@ def replay(rec):
         for i in range(L - 1): ocp.set_der(xs[i], chain[i + 1])
         # a global parameter in the path and boundary constraints (value 1/4: the bounds are the 9 and 1/2 of the specification)
         par = ocp.parameter(); ocp.set_value(par, 0.25)
-        ocp.subject_to(chain[0] + chain[1] <= 8 + 4 * par, refine=r, meta=meta('path'))
+        ocp.subject_to(chain[0] + chain[1] <= 8 + 4 * par, refine=r, include_first=bool(sc.get('incF', True)), include_last=bool(sc.get('incL', True)), meta=meta('path'))
+        ocp.subject_to(ocp.next(chain[0]) - chain[0] <= 6, meta=meta('step'))
         ocp.subject_to(ocp.at_t0(chain[0]) == 2 * par, meta=meta('bnd0'))
         ocp.subject_to(ocp.at_tf(chain[1]) == -1, meta=meta('bndf'))
-        ocp.add_objective(ocp.at_tf(chain[0]) ** 2)
+        ocp.add_objective(ocp.at_tf(chain[0]) ** 2 + ocp.sum(chain[-1] ** 2))
+        ocp.add_objective(ocp.integral(chain[1], grid='control'))
+        ocp.add_objective(ocp.integral(chain[0] * chain[1]))
         ocp.solver('ipopt')
         def grid_fun(n):
             # the method asks for the refined grid as well: equal subdivision of every control interval
@@ -64,6 +67,8 @@ def replay(rec):
             xv[tl[0]] = fl(sc['T']) / tl[1]
         ev = lambda e: np.array(ca.Function('f', [vx, vp], [e])(xv, pv)).reshape(-1)
         res.append(('C17.c:greville',) + seq_compare(list(ev(tg)), rec['greville']))
+        fobs = float(ev(opti.f)[0])
+        res.append(('C17.c:f', 'inconclusive' if isbad(rec['obj']) else 'ok' if close(fobs, rec['obj']) else 'mismatch', 'objective at the probe %r, declared terms sum to %s' % (fobs, Fr(*rec['obj']) if not isbad(rec['obj']) else 'n/a')))
         for i, s in enumerate(chain):
             _, v = quiet(ocp.sample, s, grid='control')
             res.append(('C17.c:control:m%d' % i,) + seq_compare(list(ev(v)), rec['control'][i]))
@@ -90,12 +95,12 @@ def replay(rec):
                 if np.isfinite(lb[i]): by.setdefault(cid, []).append(g[i] - lb[i])
         # SplineMethod does not forward the call-site metadata of path constraints: they are the untagged rows
         # (a free horizon brings its own untagged row T >= 0, whose slack at the probe is T)
-        res.append(('C17.c:rows:path',) + bag_compare(by.get('path', []) + by.get(None, []), rec['path'] + ([sc['T']] if free else [])))
+        res.append(('C17.c:rows:path',) + bag_compare(by.get('path', []) + by.get('step', []) + by.get(None, []), rec['path'] + rec['step'] + ([sc['T']] if free else [])))
         res.append(('C17.c:rows:bnd0',) + bag_compare(by.get('bnd0', []), [rec['bnd0']], absval=True))
         res.append(('C17.c:rows:bndf',) + bag_compare(by.get('bndf', []), [rec['bndf']], absval=True))
-        extra = [k for k in by if k not in ('path', 'bnd0', 'bndf', None)]
+        extra = [k for k in by if k not in ('path', 'step', 'bnd0', 'bndf', None)]
         res.append(('C17.c:rows:extra', 'ok' if not extra else 'mismatch', 'unexplained row groups %s' % extra))
-        if r >= 2:
+        if r >= 2 and sc.get('incF', True) and sc.get('incL', True):      # (grouped() reads the values at *all* refined points from rec['path'])
             res.extend(grouped(rec, nodes, grid_fun))
         if r == 1:
             try:
